@@ -295,73 +295,12 @@ func execHard(op string, a []string) (string, bool) {
 		if err != nil {
 			return "err:parse", true
 		}
-		keys := []*hdkeychain.ExtendedKey{k0}
-		expected := []string{obsXKey(k0)}
-		out := []string{expected[0]}
-		cur := 0
-		var ops []string
-		if a[1] != "-" {
-			ops = strings.Split(a[1], ",")
-		}
-		for _, o := range ops {
-			arg := o[1:]
-			k := keys[cur]
-			push := func(c *hdkeychain.ExtendedKey, err error) {
-				if err != nil {
-					out = append(out, deriveErr(err))
-					return
-				}
-				keys = append(keys, c)
-				expected = append(expected, obsXKey(c))
-				out = append(out, expected[len(expected)-1])
-				cur = len(keys) - 1
-			}
-			switch o[0] {
-			case 'D':
-				i, _ := strconv.ParseUint(arg, 10, 32)
-				push(k.Derive(uint32(i)))
-			case 'N':
-				i, _ := strconv.ParseUint(arg, 10, 32)
-				push(k.DeriveNonStandard(uint32(i)))
-			case 'U':
-				n, err := k.Neuter()
-				if err != nil {
-					out = append(out, "err:neuter")
-				} else if k.IsPrivate() {
-					push(n, nil)
-				} else {
-					out = append(out, obsXKey(n))
-				}
-			case 'C':
-				c, err := k.CloneWithVersion(unhx(arg))
-				if err != nil {
-					out = append(out, "err:clone")
-				} else {
-					push(c, nil)
-				}
-			case 'S':
-				k.SetNet(netOf(arg))
-				expected[cur] = obsXKey(k)
-				out = append(out, expected[cur])
-			case 'Z':
-				j, _ := strconv.Atoi(arg)
-				keys[j].Zero()
-				expected[j] = "zeroed"
-				out = append(out, "zero"+arg)
-			case 'K':
-				j, _ := strconv.Atoi(arg)
-				cur = j
-				out = append(out, "use"+arg)
-			}
-		}
-		res := " same"
-		for j, k := range keys {
-			if obsXKey(k) != expected[j] {
-				res = " CHANGED:" + strconv.Itoa(j)
-				break
-			}
-		}
-		return strings.Join(out, " ") + res, true
+		return xkWalk(k0, a[1]), true
+	case "xkn":
+		depth, _ := strconv.Atoi(a[1])
+		cn, _ := strconv.ParseUint(a[3], 10, 32)
+		k0 := hdkeychain.NewExtendedKey(unhx(a[0]), unhx(a[6]), unhx(a[4]), unhx(a[2]), uint8(depth), uint32(cn), a[5] == "1")
+		return xkWalk(k0, a[7]), true
 	case "pcb":
 		raw := unhx(a[0])
 		cb, err := txscript.ParseControlBlock(raw)
@@ -517,6 +456,84 @@ func execHard(op string, a []string) (string, bool) {
 	return "", false
 }
 
+// xkWalk runs the operations of an `xk` / `xkn` line on k0; keys are values: every key is re-observed at the end.
+func xkWalk(k0 *hdkeychain.ExtendedKey, opsArg string) string {
+	keys := []*hdkeychain.ExtendedKey{k0}
+	expected := []string{obsXKey(k0)}
+	out := []string{expected[0]}
+	cur := 0
+	var ops []string
+	if opsArg != "-" {
+		ops = strings.Split(opsArg, ",")
+	}
+	for _, o := range ops {
+		arg := o[1:]
+		k := keys[cur]
+		push := func(c *hdkeychain.ExtendedKey, err error) {
+			if err != nil {
+				out = append(out, deriveErr(err))
+				return
+			}
+			keys = append(keys, c)
+			expected = append(expected, obsXKey(c))
+			out = append(out, expected[len(expected)-1])
+			cur = len(keys) - 1
+		}
+		switch o[0] {
+		case 'D':
+			i, _ := strconv.ParseUint(arg, 10, 32)
+			push(k.Derive(uint32(i)))
+		case 'N':
+			i, _ := strconv.ParseUint(arg, 10, 32)
+			push(k.DeriveNonStandard(uint32(i)))
+		case 'U':
+			n, err := k.Neuter()
+			if err != nil {
+				out = append(out, "err:neuter")
+			} else if k.IsPrivate() {
+				push(n, nil)
+			} else {
+				out = append(out, obsXKey(n))
+			}
+		case 'C':
+			c, err := k.CloneWithVersion(unhx(arg))
+			if err != nil {
+				out = append(out, "err:clone")
+			} else {
+				push(c, nil)
+			}
+		case 'S':
+			k.SetNet(netOf(arg))
+			expected[cur] = obsXKey(k)
+			out = append(out, expected[cur])
+		case 'Z':
+			j, _ := strconv.Atoi(arg)
+			keys[j].Zero()
+			expected[j] = "zeroed"
+			out = append(out, "zero"+arg)
+		case 'R':
+			c, err := hdkeychain.NewKeyFromString(k.String())
+			if err != nil {
+				out = append(out, "err")
+			} else {
+				push(c, nil)
+			}
+		case 'K':
+			j, _ := strconv.Atoi(arg)
+			cur = j
+			out = append(out, "use"+arg)
+		}
+	}
+	res := " same"
+	for j, k := range keys {
+		if obsXKey(k) != expected[j] {
+			res = " CHANGED:" + strconv.Itoa(j)
+			break
+		}
+	}
+	return strings.Join(out, " ") + res
+}
+
 // ---------------------------------------------------------------- generators
 
 func slashLine(line string) string { return strings.Join(strings.Fields(line)[1:], "/") }
@@ -662,7 +679,7 @@ func genHard(g *core.Gen) {
 		// generator-side simulation of which operations create a key (so that Z/K indexes always exist)
 		type sim struct {
 			priv, verOK bool
-			depth        int
+			depth       int
 		}
 		keys := []sim{{priv, true, depth}}
 		cur := 0
@@ -734,6 +751,30 @@ func genHard(g *core.Gen) {
 		}
 		_ = cur
 		gc(g, "xk", true, "C16 xk "+hx([]byte(ek.String()))+" "+strings.Join(append(ops, "U"), ","))
+	}
+	// parents whose stored private key is short (Derive strips EVERY leading zero byte): 28..32 bytes and a few tiny
+	// ones, built directly with NewExtendedKey; hardened / normal / non-standard children, the same children after a
+	// String() -> NewKeyFromString round trip of the parent (R), and the public side
+	for _, kl := range []int{1, 2, 16, 28, 29, 30, 31, 32} {
+		for k := 0; k < g.N(2, 8); k++ {
+			n := ns[r.Intn(len(ns))]
+			key := r.Bytes(kl)
+			key[0] |= 1 // stored stripped: first byte non-zero
+			if k%2 == 1 && kl > 1 {
+				key[0] = 0 // also a short key that still has a leading zero
+			}
+			h1 := strconv.FormatUint(uint64(0x80000000|r.U32()), 10)
+			n1 := strconv.FormatUint(uint64(r.U32()&0x7fffffff), 10)
+			ops := "D" + h1 + ",K0,D" + n1 + ",K0,N" + h1 + ",K0,N" + n1 + ",K0,R,D" + h1 + ",K" + "5" + ",D" + n1 + ",K0,U,D" + n1 + ",K0,D2147483648,K0,D4294967295"
+			gc(g, "xkn-shortkey", true, "C16 xkn "+hx(n.p.HDPrivateKeyID[:])+" "+strconv.Itoa(r.Intn(200))+" "+hx(r.Bytes(4))+" "+
+				strconv.FormatUint(uint64(r.U32()), 10)+" "+hx(r.Bytes(32))+" 1 "+hx(key)+" "+ops)
+		}
+	}
+	// a known node with two leading zero bytes: seed 00..0007, m/11135H (private key 000030e1d856…), then children
+	seed7 := make([]byte, 32)
+	seed7[31] = 7
+	for _, tail := range []string{"2147483648", "2147483649", "2147483692", "4294967295", "0", "5", "2147483647"} {
+		gc(g, "drv-shortkey2", true, "C16 drv mainnet "+hx(seed7)+" 2147494783,"+tail+",2147483648")
 	}
 	// control blocks: every size class around the limits
 	x := pubKeys(r)[0][1:33]
